@@ -39,6 +39,7 @@ const (
 	siteIf              // if err := h(args); err != nil { R }
 	siteAssign          // a, b, err := h(args)   [; if err != nil { R }]
 	siteReturn          // return h(args)
+	siteGo              // go h(args): the body runs in a function literal
 	siteHoist           // S[ h(args) ]: the value is computed into a temporary in front of statement S
 )
 
@@ -176,6 +177,20 @@ func (w *World) inlineRound(overlay map[string][]byte) (map[string][]byte, []str
 					}
 				}
 			}
+		}
+		// a helper whose substitution would overlap one already accepted in this round waits for the next
+		clash := false
+		for k, v := range hEdits {
+			for _, e := range v {
+				for _, a := range edits[k] {
+					if e.start < a.end && a.start < e.end && !(e.start == e.end && a.start == a.end) {
+						clash = true
+					}
+				}
+			}
+		}
+		if clash {
+			continue
 		}
 		for k, v := range hEdits {
 			edits[k] = append(edits[k], v...)
@@ -331,6 +346,10 @@ func classifySite(caller *Func, call *ast.CallExpr) *inlineSite {
 		case *ast.ExprStmt:
 			if isBlockMember(grand, p) {
 				res = &inlineSite{caller: caller, call: call, kind: siteStmt, stmt: p, inLoop: inLoop}
+			}
+		case *ast.GoStmt:
+			if p.Call == call && isBlockMember(grand, p) {
+				res = &inlineSite{caller: caller, call: call, kind: siteGo, stmt: p, inLoop: inLoop}
 			}
 		case *ast.ReturnStmt:
 			if len(p.Results) == 1 && isBlockMember(grand, p) {
@@ -761,7 +780,17 @@ func (w *World) inlineText(h *Func, s *inlineSite, serial int, overlay map[strin
 			case simpleArg(sel.X) && !assigned[robj] && rt != nil && types.Identical(types.NewPointer(rt), robj.Type()):
 				subst[robj] = "(&" + recvText + ")"
 			default:
-				return "", false, "receiver expression cannot be substituted"
+				// any other receiver expression is evaluated once into a local
+				name := rid.Name + suffix
+				subst[robj] = name
+				switch {
+				case rt != nil && types.Identical(rt, robj.Type()):
+					pre = append(pre, name+" := "+recvText, "_ = "+name)
+				case rt != nil && types.Identical(types.NewPointer(rt), robj.Type()):
+					pre = append(pre, name+" := &"+recvText, "_ = "+name)
+				default:
+					return "", false, "receiver expression cannot be substituted"
+				}
 			}
 		}
 	}
@@ -848,7 +877,7 @@ func (w *World) inlineText(h *Func, s *inlineSite, serial int, overlay map[strin
 	g := h.Graph()
 	plain := map[*ast.ReturnStmt]bool{} // returns that are not substituted by the caller's error handler
 	for _, r := range g.Returns() {
-		if s.kind == siteReturn {
+		if s.kind == siteReturn || s.kind == siteGo {
 			continue // returns stay returns
 		}
 		isErrRet := hasErr && len(r.Results) == nres && !g.ReturnMayBeNil(r)
@@ -980,7 +1009,7 @@ func (w *World) inlineText(h *Func, s *inlineSite, serial int, overlay map[strin
 	genFinal := func(r *ast.ReturnStmt) string {
 		vals := values(r)
 		switch s.kind {
-		case siteReturn:
+		case siteReturn, siteGo:
 			return "return " + strings.Join(vals, ", ") + "\n"
 		case siteStmt:
 			out := ""
@@ -1050,7 +1079,7 @@ func (w *World) inlineText(h *Func, s *inlineSite, serial int, overlay map[strin
 			last := i == len(stmts)-1
 			switch y := st.(type) {
 			case *ast.ReturnStmt:
-				if plain[y] || s.kind == siteReturn {
+				if plain[y] || s.kind == siteReturn || s.kind == siteGo {
 					if !(tail && last) {
 						failed = "a return that is not in tail position"
 						return out
@@ -1058,7 +1087,7 @@ func (w *World) inlineText(h *Func, s *inlineSite, serial int, overlay map[strin
 					return out + genFinal(y)
 				}
 			case *ast.IfStmt:
-				if s.kind != siteReturn && hasPlain(y) {
+				if s.kind != siteReturn && s.kind != siteGo && hasPlain(y) {
 					if !tail {
 						failed = "an early return nested in a non-tail statement"
 						return out
@@ -1085,7 +1114,7 @@ func (w *World) inlineText(h *Func, s *inlineSite, serial int, overlay map[strin
 					return out + head + " {\n" + genList(thenStmts, true) + "} else {\n" + genList(elseStmts, true) + "}\n"
 				}
 			case *ast.BlockStmt:
-				if s.kind != siteReturn && hasPlain(y) {
+				if s.kind != siteReturn && s.kind != siteGo && hasPlain(y) {
 					if !(tail && last) {
 						failed = "an early return nested in a block that is not last"
 						return out
@@ -1093,20 +1122,20 @@ func (w *World) inlineText(h *Func, s *inlineSite, serial int, overlay map[strin
 					return out + "{\n" + genList(y.List, true) + "}\n"
 				}
 			default:
-				if s.kind != siteReturn && hasPlain(st) {
+				if s.kind != siteReturn && s.kind != siteGo && hasPlain(st) {
 					failed = "an early return inside a loop or switch of the helper"
 					return out
 				}
 			}
 			out += render(hsrc, htf, info, st, subst, skip) + "\n"
 		}
-		if tail && named && s.kind != siteReturn {
+		if tail && named && s.kind != siteReturn && s.kind != siteGo {
 			// falls off the end: the named results are the values
 			out += genFinal(&ast.ReturnStmt{})
 		}
 		return out
 	}
-	if s.kind == siteReturn && named {
+	if (s.kind == siteReturn || s.kind == siteGo) && named {
 		// bare returns become explicit
 		for _, r := range g.Returns() {
 			if len(r.Results) == 0 {
@@ -1116,7 +1145,7 @@ func (w *World) inlineText(h *Func, s *inlineSite, serial int, overlay map[strin
 	}
 	// plain returns nested in loops or switches: fall back to a labelled one-arm switch that is left by `break`
 	nested := false
-	if s.kind != siteReturn {
+	if s.kind != siteReturn && s.kind != siteGo {
 		var chk func(stmts []ast.Stmt)
 		chk = func(stmts []ast.Stmt) {
 			for _, st := range stmts {
@@ -1216,7 +1245,7 @@ func (w *World) inlineText(h *Func, s *inlineSite, serial int, overlay map[strin
 		return b.String(), true, ""
 	}
 	bodyText := ""
-	if s.kind == siteReturn {
+	if s.kind == siteReturn || s.kind == siteGo {
 		for _, st := range h.Decl.Body.List {
 			bodyText += render(hsrc, htf, info, st, subst, skip) + "\n"
 		}
@@ -1237,6 +1266,13 @@ func (w *World) inlineText(h *Func, s *inlineSite, serial int, overlay map[strin
 	}
 	for _, p := range pre {
 		b.WriteString(p + "\n")
+	}
+	if s.kind == siteGo {
+		if nres != 0 {
+			return "", false, "go statement on a helper with results"
+		}
+		b.WriteString("go func() {\n" + bodyText + "}()\n")
+		return b.String(), true, ""
 	}
 	b.WriteString(bodyText)
 	b.WriteString(after)
@@ -1390,19 +1426,46 @@ func (w *World) aliasRenamed() {
 		k := prefix(name) + "|" + sigString(f.Obj)
 		fresh[k] = append(fresh[k], f)
 	}
+	type pair struct {
+		f   *Func
+		old string
+	}
+	var pairs []pair
 	for k, gone := range missing {
 		cand := fresh[k]
-		if len(gone) != 1 || len(cand) != 1 {
+		if len(gone) == 1 && len(cand) == 1 {
+			pairs = append(pairs, pair{cand[0], gone[0]})
 			continue
 		}
-		f := cand[0]
-		old := gone[0]
+		// several functions of one signature renamed at once: the body skeleton (locals blanked) decides
+		used := map[*Func]bool{}
+		for _, old := range gone {
+			var hit []*Func
+			for _, f := range cand {
+				if !used[f] && bodySkeleton(f) == pinnedSkeletons[old] {
+					hit = append(hit, f)
+				}
+			}
+			if len(hit) == 1 {
+				used[hit[0]] = true
+				pairs = append(pairs, pair{hit[0], old})
+			}
+		}
+	}
+	sort.Slice(pairs, func(i, j int) bool { return pairs[i].old < pairs[j].old })
+	for _, pr := range pairs {
+		f := pr.f
+		old := pr.old
 		delete(w.Funcs, f.Name)
 		w.Renamed = append(w.Renamed, f.Name+" is taken to be "+old+" under a new name (same package, receiver and signature; the old name is gone)")
 		f.Name = old
 		w.Funcs[old] = f
 		w.aliased[f] = true
 		funcAlias[f.Obj] = old[strings.LastIndex(old, ".")+1:]
+		if w.aliasShort == nil {
+			w.aliasShort = map[string]string{}
+		}
+		w.aliasShort[f.Obj.Name()] = old[strings.LastIndex(old, ".")+1:]
 	}
 	sort.Strings(w.Renamed)
 }
@@ -1512,4 +1575,170 @@ func (w *World) exprHelperText(h *Func, s *inlineSite, overlay map[string][]byte
 		return "", false
 	}
 	return "(" + render(hsrc, htf, info, ret.Results[0], subst, nil) + ")", true
+}
+
+// ---- opacity --------------------------------------------------------------------------------------------
+
+// opaqueKey: does the obligation key name a function that the rules cannot read by shape? Keys start with the
+// function name ("pkg.Func|…", "pkg.(*T).M|…") or are a codec pair "A<->B".
+func (w *World) opaqueKey(key string) string {
+	if w == nil || len(pinnedFuncs) == 0 {
+		return ""
+	}
+	head := key
+	if i := strings.Index(head, "|"); i >= 0 {
+		head = head[:i]
+	}
+	for _, name := range strings.Split(head, "<->") {
+		if f := w.Funcs[name]; f != nil {
+			if why := w.opaque(f); why != "" {
+				return "because " + name + " " + why
+			}
+		}
+	}
+	return ""
+}
+
+func (w *World) opaque(f *Func) string {
+	k := "opaque:" + f.Name
+	if v, ok := w.memo[k]; ok {
+		return v.(string)
+	}
+	w.memo[k] = "" // recursion guard
+	why := ""
+	if sig, ok := pinnedFuncs[f.Name]; ok && !w.aliased[f] && sig != sigString(f.Obj) {
+		why = "has a different signature than the one the rules were written for"
+	}
+	info := f.Pkg.TypesInfo
+	if why == "" {
+		ast.Inspect(f.Decl, func(x ast.Node) bool {
+			if why != "" {
+				return false
+			}
+			id, ok := x.(*ast.Ident)
+			if !ok {
+				return true
+			}
+			switch o := info.ObjectOf(id).(type) {
+			case *types.TypeName:
+				if o.Pkg() != nil && pkgKey(o.Pkg().Path()) != "" && o.Parent() == o.Pkg().Scope() {
+					if !pinnedTypes[pkgKey(o.Pkg().Path())+"."+o.Name()] {
+						why = "uses the type " + o.Name() + ", which the rules have never seen"
+					}
+				}
+			case *types.Func:
+				if t := w.byObj[o]; t != nil && t != f {
+					if _, pinned := pinnedFuncs[t.Name]; !pinned && !w.aliased[t] {
+						if w.inertFunc(t) {
+							break // a diagnostic helper (formats and prints): nothing a rule looks at
+						}
+						why = "calls " + t.Name + ", which is unknown to the rules and could not be made transparent"
+					} else if sig, ok := pinnedFuncs[t.Name]; ok && !w.aliased[t] && sig != sigString(t.Obj) {
+						why = "calls " + t.Name + ", whose signature changed"
+					}
+				}
+			}
+			return true
+		})
+	}
+	w.memo[k] = why
+	return why
+}
+
+// bodySkeleton: the function body with every local variable name blanked and calls of repository functions
+// reduced to their arity (so that renames of locals and of other functions do not matter).
+func bodySkeleton(f *Func) string {
+	info := f.Pkg.TypesInfo
+	var b strings.Builder
+	ast.Inspect(f.Decl.Body, func(x ast.Node) bool {
+		switch y := x.(type) {
+		case nil:
+			return true
+		case *ast.Ident:
+			switch o := info.ObjectOf(y).(type) {
+			case *types.Var:
+				if o.IsField() {
+					b.WriteString("." + o.Name())
+				} else {
+					b.WriteString("v")
+				}
+			case *types.Func:
+				if o.Pkg() != nil && pkgKey(o.Pkg().Path()) != "" {
+					b.WriteString("f")
+				} else {
+					b.WriteString(o.Name())
+				}
+			default:
+				b.WriteString(y.Name)
+			}
+			b.WriteString(" ")
+		case *ast.BasicLit:
+			b.WriteString(y.Value + " ")
+		case *ast.BinaryExpr:
+			b.WriteString(y.Op.String() + " ")
+		case *ast.UnaryExpr:
+			b.WriteString(y.Op.String() + " ")
+		case *ast.AssignStmt:
+			b.WriteString(y.Tok.String() + " ")
+		case *ast.ReturnStmt:
+			b.WriteString("return ")
+		case *ast.IfStmt:
+			b.WriteString("if ")
+		case *ast.ForStmt:
+			b.WriteString("for ")
+		case *ast.RangeStmt:
+			b.WriteString("range ")
+		case *ast.SwitchStmt:
+			b.WriteString("switch ")
+		case *ast.BranchStmt:
+			b.WriteString(y.Tok.String() + " ")
+		}
+		return true
+	})
+	return b.String()
+}
+
+// inertFunc: the function only formats and prints (fmt, log, os.Stderr/Stdout, strings, strconv): it touches
+// no state a rule is about.
+func (w *World) inertFunc(f *Func) bool {
+	info := f.Pkg.TypesInfo
+	ok := true
+	ast.Inspect(f.Decl.Body, func(x ast.Node) bool {
+		if !ok {
+			return false
+		}
+		switch y := x.(type) {
+		case *ast.AssignStmt:
+			for _, l := range y.Lhs {
+				if id, isID := ast.Unparen(l).(*ast.Ident); !isID {
+					ok = false
+				} else if v, isVar := info.ObjectOf(id).(*types.Var); isVar && v.Pkg() != nil && v.Parent() == v.Pkg().Scope() {
+					ok = false
+				}
+			}
+		case *ast.IncDecStmt, *ast.SendStmt, *ast.GoStmt, *ast.DeferStmt:
+			ok = false
+		case *ast.CallExpr:
+			if tv, isT := info.Types[y.Fun]; isT && tv.IsType() {
+				return true
+			}
+			if id, isID := ast.Unparen(y.Fun).(*ast.Ident); isID {
+				if _, isB := info.ObjectOf(id).(*types.Builtin); isB {
+					return true
+				}
+			}
+			callee := f.Callee(y)
+			if callee == nil || callee.Pkg() == nil {
+				ok = false
+				return false
+			}
+			switch callee.Pkg().Path() {
+			case "fmt", "log", "strings", "strconv", "time", "unicode/utf8":
+			default:
+				ok = false
+			}
+		}
+		return true
+	})
+	return ok
 }
